@@ -33,3 +33,47 @@ package queue
 //@ ensures len(result0) <= len(pids)
 //@ ensures forall i int :: 0 <= i && i < len(result0) ==> result0[i] != nil && result0[i].MessageWithID.(type *Publish) && result0[i].MessageWithID.(*Publish) != nil && result0[i].MessageWithID.(*Publish).Message != nil
 //@ ensures forall i int :: 0 <= i && i < len(result0) ==> result0[i].At <= now()
+
+// Interface contract of queue.Notifier as seen by a queue implementation: the callbacks report to the statistics
+// and to hooks; they do not touch the queue, its list or the elements (assumption). $queued / $inflight
+// accumulate the reported deltas, $drops counts NotifyDropped calls, $lastDrop / $lastErr record the last one.
+//@ ghost field (Notifier).queued int
+//@ ghost field (Notifier).inflight int
+//@ ghost field (Notifier).drops int
+//@ ghost field (Notifier).lastDrop *Elem
+//@ ghost field (Notifier).lastErr error
+
+//@ func (Notifier).NotifyMsgQueueAdded
+//@ params n, delta
+//@ modifies ghost(n.$queued)
+//@ ensures n.$queued == old(n.$queued) + delta
+
+//@ func (Notifier).NotifyInflightAdded
+//@ params n, delta
+//@ modifies ghost(n.$inflight)
+//@ ensures n.$inflight == old(n.$inflight) + delta
+
+//@ func (Notifier).NotifyDropped
+//@ params n, elem, err
+//@ requires elem != nil
+//@ modifies ghost(n.$drops), ghost(n.$lastDrop), ghost(n.$lastErr)
+//@ ensures n.$drops == old(n.$drops) + 1 && n.$lastDrop == elem && n.$lastErr == err
+
+// Elem.ID(): the packet identifier of the message (through the embedded MessageWithID).
+//@ func (*Publish).ID inline
+//@ func (*Pubrel).ID inline
+//@ func (*Publish).SetID inline
+//@ func (*Pubrel).SetID inline
+
+// MessageWithID (dynamic dispatch over *Publish / *Pubrel): ID reads, SetID writes the packet identifier.
+//@ func (MessageWithID).ID
+//@ params m
+//@ ensures m.(type *Publish) ==> result == m.(*Publish).Message.PacketID
+//@ ensures m.(type *Pubrel) ==> result == m.(*Pubrel).PacketID
+
+//@ func (MessageWithID).SetID
+//@ params m, id
+//@ requires (m.(type *Publish) && m.(*Publish) != nil && m.(*Publish).Message != nil) || (m.(type *Pubrel) && m.(*Pubrel) != nil)
+//@ modifies all(gmqtt.Message.PacketID), all(Pubrel.PacketID)
+//@ ensures m.(type *Publish) ==> m.(*Publish).Message.PacketID == id && (forall x *gmqtt.Message :: x != m.(*Publish).Message ==> x.PacketID == old(x.PacketID)) && (forall r *Pubrel :: r.PacketID == old(r.PacketID))
+//@ ensures m.(type *Pubrel) ==> m.(*Pubrel).PacketID == id && (forall r *Pubrel :: r != m.(*Pubrel) ==> r.PacketID == old(r.PacketID)) && (forall x *gmqtt.Message :: x.PacketID == old(x.PacketID))
